@@ -2,6 +2,7 @@
 # usage: try_mutant.sh <patch> <Cnn> [<Cnn>...] : apply to /repo, run checks, revert. Prints rc per check.
 set -uo pipefail
 P="$1"; shift
+if [[ -n "$(git -C /repo status --porcelain --untracked-files=no)" ]]; then echo "refusing: /repo has uncommitted changes"; exit 8; fi
 git -C /repo apply "$P" || { echo "APPLY FAILED $P"; exit 9; }
 for C in "$@"; do
   OUT="$(/verif/bin/check "$C" 2>&1)"; RC=$?
